@@ -369,7 +369,7 @@ def native_check(c, registry, args):
         for exc in c.raises:
             if type(e) is exc:
                 decl = exc
-        if decl is None and not isinstance(e, NameError):
+        if decl is None and not isinstance(e, (NameError, AssertionError)):
             for exc in c.raises:
                 if isinstance(e, exc):
                     decl = exc
